@@ -14,7 +14,7 @@ func init() {
 		},
 		Rule:      "a case = (generated design, method, valid result drawn per response location, view chosen by the stub) returned by the stub service behind the generated server and decoded by the generated client. Non-trivial = the result selects a tagged response, or has attributes both in the body and in headers/cookies, or leaves a defaulted attribute unset, or is rendered under a non-default view. Distinct = SHA-256 of method, view and canonical result.",
 		LevelText: "Generated-input search over designs and result values: real goa generators, compiled and executed; the value returned by the generated client is compared with the value returned by the stub under the reference semantics (view projection, declared defaults), the wire status with the response the design selects (tags), and every attribute with its designed location on the tapped response; exactly one WriteHeader. Exploration with rapid shrinking of the failing result.",
-		LevelNote: "Trusts the Go tool chain, net/http, rapid and the verifier's model/oracle and reflection harness. Designs stay in the gen.Response profile; open findings are excluded by construction and probed. OneOf unions in result bodies are exercised. Response bodies streamed by the method itself (SkipResponseBodyEncodeDecode) are exercised on a fixed design (result in response headers, opaque body bytes up to 200 kB). Streaming endpoints (websocket) are exercised on a fixed design and on generated designs of the streams profile (payload mapped to path / query / headers, streamed messages over the generator's whole type grammar: primitives, arrays, maps, inline objects, user types with nesting, recursion, validations and defaults, result types with views). Fixed design (stream matrix: result-streaming and bidirectional methods with primitive, array, user-type and viewed result-type messages; final result of payload-streaming methods): scripted calls of up to 10 (quick) interleaved messages, every streamed result compared in order at the client, end of stream seen as io.EOF. A service that closes a stream it never used is an open finding (excluded, probed).",
+		LevelNote: "Trusts the Go tool chain, net/http, rapid and the verifier's model/oracle and reflection harness. Designs stay in the gen.Response profile; open findings are excluded by construction and probed. OneOf unions in result bodies are exercised. Response bodies streamed by the method itself (SkipResponseBodyEncodeDecode) are exercised on a fixed design (result in response headers, opaque body bytes up to 200 kB). Streaming endpoints (websocket) are exercised on a fixed design and on generated designs of the streams profile (payload mapped to path / query / headers, streamed messages over the generator's whole type grammar: primitives, arrays, maps, inline objects, user types with nesting, recursion, validations and defaults, result types with views). Fixed design (stream matrix: result-streaming and bidirectional methods with primitive, array, user-type and viewed result-type messages; final result of payload-streaming methods): scripted calls of up to 10 (quick) interleaved messages, every streamed result compared in order at the client, end of stream seen as io.EOF. A service that closes a stream it never used is an open finding (excluded, probed). Extend / Reference inheritance is exercised on a fixed design (InheritMatrix: results and result types whose attributes are inherited).",
 		Technique: "property-based testing (rapid): round trip of generated results through generated server and client, reference response selection and view projection, location oracle on the tapped response; scripted streaming calls (both ends follow a generated script) with per-message equality in order",
 		Assumptions: []string{
 			"an empty collection and an unset one are the same Go value; a required primitive outside the rendered view is its zero value (non-pointer field)",
